@@ -1,5 +1,5 @@
 #!/usr/bin/env python3
-"""Regenerate the round-4 .. round-10 tables of DESIGN.md section 11 from seeded/*/meta.json and
+"""Regenerate the round-4 .. round-11 tables of DESIGN.md section 11 from seeded/*/meta.json and
 seeded/RESULTS.json (between the markers)."""
 import json, os, re
 res=json.load(open('/verif/seeded/RESULTS.json'))
@@ -14,6 +14,7 @@ def table(prefix):
 tot=len([k for k in res if re.match(r'^(r\d+-)?c\d+-m\d$',k)])
 det=len([k for k,v in res.items() if re.match(r'^(r\d+-)?c\d+-m\d$',k) and v.get('quick',{}).get('detected')])
 thor=[k for k,v in res.items() if v.get('thorough',{}).get('detected') and not v.get('quick',{}).get('detected')]
+missed=', '.join('`%s`'%k for k in sorted(res) if re.match(r'^(r\d+-)?c\d+-m\d$',k) and not res[k].get('quick',{}).get('detected'))
 text=f"""<!-- SEEDED-TABLES-BEGIN -->
 Fourth round, focus on the EDGES of the input / configuration space (sizes, counts of 0 and 1,
 coincidences, extreme parameter values, special floats, pool sizes above the core count): 21 more
@@ -88,6 +89,25 @@ This is the one round whose first-run figure says something about changes nobody
 
 {table('r10-')}
 
+Eleventh round, a SECOND HELD-OUT round (last session; time-boxed, two changes asked of each
+sub-agent): "manifestation depends on what a single-threaded test with one fixed input cannot
+control" — the interleaving of pool workers or caller threads, the pool size, the instant of a
+cancellation, a random outcome, state left by an earlier call, the wall clock, a file-system
+fault. 12 changes were delivered and confirmed (`/verif/seeded/r11-*`); one more (`c14-m1`, a
+thread-local read by stolen inner collision tasks) was delivered but its demonstration PASSED with
+the change in both of my confirmation runs, so it is not kept (section 7 says why the simulator
+would not reach it either); one sub-agent delivered one change only. First evaluation against the
+simulator as frozen before the round: 7 of 12 caught by the quick tier, 1 reported through an
+artefact of my harness (`r11-c19-m1`, a FALSE-ALARM source that this round uncovered and that is
+repaired: `std::thread::sleep` rewritten to shuttle's panicked outside a simulated run), 1 not
+evaluable (`r11-c11-m2`, rayon model API), 3 missed. All three misses and the unbuildable one had
+one cause each, all of them missing CALLER CONTEXTS rather than missing inputs: callers that are
+pool workers themselves (C10, C11, C14 now have them), concurrent callers of the YAML writer (C19
+had none), an earlier FAILED call in the history (C18), the life cycle of rayon's global pool.
+After these extensions all 12 are caught by the quick tier.
+
+{table('r11-')}
+
 Probes of my own (no demonstration programs, not counted): `own-hang-1` (a spin loop between
 scheduling points, reported as `t:no-termination` by the watchdog), `own-r6-c11-m3-static` (my
 port of `r6-c11-m3` to a static, caught by C11 after its second phase was made to repeat the
@@ -96,19 +116,28 @@ budget in `dual_rrt_connect`, caught by C12 clause g through the simulated clock
 (`Tool::forward_with_joint_poses` moving link 6 to the tool centre point, caught by the placement
 oracle of C10).
 
-Totals over the ten rounds (final matrix, every kept change against the final machinery, default
-seed): {det} of {tot} seeded changes are caught by the QUICK tier of their property's check. The
-others, besides the three of round 9 and `r10-c12-m3` (thorough tier) named above: `r5-c13-m1` (quick at 2 of 4 seeds, thorough at the default seed: the collision has
-to be on a pair in the tail of the task list at a pool size that leaves a remainder), `c12-m2` (a
-rare event by its author's own account: thorough at 2 of 4 seeds, see below), `r7-c13-m1` (not
-caught: needs an obstacle thinner than a hundredth of a degree of joint motion, see its row),
-`r6-c11-m3` (not evaluable: it adds a private field to `KinematicsWithShape`, the harness no longer
-builds, exit 2; my port of its mechanism to a static is caught). Several changes that earlier
-matrices caught by luck at the default seed were made robust in the last session (`r2-c13-m1`,
+Totals over the eleven rounds (final matrix, every kept change against the final machinery, default
+seed): {det} of {tot} seeded changes are caught by the QUICK tier of their property's check. Not
+caught by the quick tier at the default seed: {missed}. Of these `r10-c12-m3` and `c12-m2` are caught by the thorough
+tier (`c12-m2`, a rare event by its author's own account, at 2 of 4 seeds, see below); `r9-c10-m2`
+(the property does not define the configuration it needs), `r9-c12-m2`, `r9-c13-m1` (a 65,537-vertex
+tree) and `r7-c13-m1` (needs an obstacle thinner than a hundredth of a degree of joint motion) are
+explained in their rows; `r6-c11-m3` is not evaluable (it adds a private field to
+`KinematicsWithShape`, the harness no longer builds, exit 2; my port of its mechanism to a static
+is caught). `r5-c13-m1` (a first-collision search in `chunks_exact` batches: the collision has to
+be on a pair in the TAIL of the task list at a pool size that leaves a remainder) used to be
+caught at 2 of 4 seeds only; since the last session every third C13 scenario is also run as a
+POSITIONAL VARIANT (environment list reversed, tool and / or base body taken away, pool sizes 2-13
+that divide few pair counts; start and goal stay free because bodies are only removed or
+renumbered) and it is caught at both seeds that used to miss it. Several changes that earlier
+matrices caught by luck at the default seed were made robust in the third session (`r2-c13-m1`,
 `r4-c11-m1`, `r4-c11-m3`, `r6-c18-m1`, `r8-c19-m3`): every time the simulator's stream layout
 changes, marginal detections move, which is why the matrix is re-run after every change of the
-machinery (in full after the last change of the shared parts; for C12 and C19, whose generators
-changed once more after rounds 8 and 9, their entries and those of C11 and C14 were re-run).
+machinery. After the last session's extensions (which changed the C10, C11 and C14 generators for
+a fifth of their single-caller scenarios) the entries of C10, C11, C14 and of round 11 were
+re-run; the C12, C13, C18 and C19 entries of the earlier rounds are from the matrix before (their
+generators only GAINED scenarios since: positional variants, failed-call histories, concurrent
+writers; C19 also stamps 12 % of its bases with a future time instead of the real one).
 <!-- SEEDED-TABLES-END -->"""
 s=open('/verif/DESIGN.md').read()
 if '<!-- SEEDED-TABLES-BEGIN -->' in s:
